@@ -25,6 +25,11 @@ func CreateCookie(key, value string) *http.Cookie {
 	h.Add("Cookie", fmt.Sprintf("%s=%s", key, value))
 	rr := http.Request{Header: h}
 	c, _ := rr.Cookie(key) // nolint:errcheck
+	if c == nil {
+		// net/http does not read back a value (or a name) it considers malformed, e.g. one that contains
+		// a double quote or a non-ASCII byte. AddCookie drops the offending bytes when the cookie is written.
+		return &http.Cookie{Name: key, Value: value}
+	}
 	return c
 }
 
